@@ -278,6 +278,9 @@ func genC06Files(c *ctx) []*mfile {
 		name := make([]byte, nameLen)
 		for k := range name {
 			name[k] = byte(0x21 + rng.Intn(0x5e))
+			if i%3 == 1 && rng.Intn(2) == 0 { // Latin-1 letters are legal in profile names
+				name[k] = byte(0xa1 + rng.Intn(0x5f))
+			}
 		}
 		damage := ""
 		if rng.Intn(4) == 0 {
